@@ -64,6 +64,8 @@ func (br *bodyRun) builtin(st *State, f *ssa.Builtin, c *ssa.CallCommon, args []
 			r = ite(cnd, r, a.(Scalar).T)
 		}
 		return Scalar{r}
+	case "recover":
+		unsup("recover()")
 	case "ssa:wrapnilchk":
 		return args[0]
 	case "print", "println":
@@ -126,9 +128,9 @@ func (fc *FnCtx) mapKeySort(mt *types.Map) string {
 func (fc *FnCtx) mapKeys(mt *types.Map) []keySort {
 	ks := fc.mapKeySort(mt)
 	name := "map|" + typeName(mt)
-	out := []keySort{{name + "|present", "(Array Int (Array " + ks + " Bool))"}, {name + "|len", "(Array Int (_ BitVec 64))"}}
+	out := []keySort{{name + "|present", "(Array Int (Array " + ks + " Bool))", nil}, {name + "|len", "(Array Int (_ BitVec 64))", nil}}
 	for _, l := range leavesOf(mt.Elem()) {
-		out = append(out, keySort{name + "|val" + l.Suffix, "(Array Int (Array " + ks + " " + l.Sort + "))"})
+		out = append(out, keySort{name + "|val" + l.Suffix, "(Array Int (Array " + ks + " " + l.Sort + "))", nil})
 	}
 	return out
 }
@@ -344,13 +346,13 @@ func init() {
 	}
 	const yp = "github.com/dgraph-io/badger/v4/y."
 	natives[yp+"AssertTrue"] = func(br *bodyRun, st *State, fn *ssa.Function, av []ssa.Value, args []Val, rt types.Type, x ssa.CallInstruction) Val {
-		br.fc.oblige(st, args[0].(Scalar).T, br.prefix+br.fc.ordName("asserttrue", ""), "assert", x.Pos(), "y.AssertTrue condition")
+		br.fc.oblige(st, args[0].(Scalar).T, br.prefix+br.fc.ordName("asserttrue", ""), "asserttrue", x.Pos(), "y.AssertTrue condition")
 		return nil
 	}
 	natives[yp+"AssertTruef"] = natives[yp+"AssertTrue"]
 	natives[yp+"Check"] = func(br *bodyRun, st *State, fn *ssa.Function, av []ssa.Value, args []Val, rt types.Type, x ssa.CallInstruction) Val {
 		e := args[0].(IfaceV)
-		br.fc.oblige(st, eq(e.Tag, "0"), br.prefix+br.fc.ordName("check", ""), "assert", x.Pos(), "y.Check(err): err is nil")
+		br.fc.oblige(st, eq(e.Tag, "0"), br.prefix+br.fc.ordName("check", ""), "asserttrue", x.Pos(), "y.Check(err): err is nil")
 		return nil
 	}
 	natives[yp+"Wrapf"] = func(br *bodyRun, st *State, fn *ssa.Function, av []ssa.Value, args []Val, rt types.Type, x ssa.CallInstruction) Val {
